@@ -147,6 +147,12 @@ def keyword_oracle(tier, seed):
               ("subtract-x1-x2", lambda: np.subtract(x1=b, x2=a), lambda: b.values - a.values),
               ("where-mask", lambda: np.sum(a, axis="x", where=(b.values > 5)), lambda: np.sum(a.values, axis=0, where=(b.values > 5))),
               ("isclose-b", lambda: np.isclose(a, b=b), lambda: np.isclose(a.values, b.values))]
+    cz = dnp.DNPData(base + 1j * base[::-1], ["x", "y"], [np.arange(3.0), np.arange(4.0)])
+    probes += [("average-complex-x", lambda: dnp.average(cz, axis="x"), lambda: np.mean(cz.values, axis=0)),
+               ("average-complex-y", lambda: dnp.average(cz, axis="y"), lambda: np.mean(cz.values, axis=1)),
+               ("mean-complex-name", lambda: np.mean(cz, axis="y"), lambda: np.mean(cz.values, axis=1)),
+               ("average-float32", lambda: dnp.average(dnp.DNPData(base.astype(np.float32), ["x", "y"], [np.arange(3.0), np.arange(4.0)]), axis="x"),
+                lambda: np.mean(base.astype(np.float32), axis=0))]
     for nm, got_f, want_f in probes:
         n_eval += 1
         with warnings.catch_warnings():
